@@ -50,6 +50,15 @@ WriteBack == /\ pc = "writeback"
 Next == Plant \/ Perturb \/ Align \/ WriteBack
 Spec == Init /\ [][Next]_vars
 
+(* the transform an alignment result denotes (AlignmentResult.affine_matrix, Model.fit): rotation about the box centre,
+   then the shift.  The fitted image shows, at offset u from the box centre, the sub-volume voxel at offset quat u + shift
+   (numerator over quat.d).  With the Align step above (the sub-volume shows template feature u at c + q u + m) the fitted
+   image therefore shows the template itself: FitSource(res, u) is where template feature u sits.   [extended coverage X02] *)
+FitSource(r, u) == VAdd(RApplyN(r.quat, u), VScale(r.quat.d, r.shift))
+FitShowsTemplate == pc \in {"writeback", "done"} =>
+   \A u \in {<<a, b, c>> : a \in -1..1, b \in -1..1, c \in -1..1} :
+      FitSource(res, u) = VAdd(RApplyN(cfg.q, u), VScale(cfg.q.d, cfg.m))
+
 (* C01 *)
 PoseRecovered == pc = "done" => (out.p2 = VScale(cfg.s2 * out.pden, PStarPx) /\ REq(out.R, cfg.Rstar))
 FeaturesDescribePose == pc = "done" => out.fshift2 = VScale(cfg.s2, cfg.m)
